@@ -362,9 +362,9 @@ func init() {
 		Run: func(c *Ctx) {
 			c.TLSConfig("C19")
 			c.IdentitySource("C19")
-			c.CheckSemantics("C07") // the decision is taken under the entry of the very name the certificate bears
+			c.CheckSemantics("C07")           // the decision is taken under the entry of the very name the certificate bears
 			c.CredentialsRequestScoped("C19") // every decision is taken under the request's own authenticated name
-			c.PeerGate("C19") // the key-generation service identifies its callers from the same verified name
+			c.PeerGate("C19")                 // the key-generation service identifies its callers from the same verified name
 		},
 		Explanation: "The one gRPC server of the production program is created with TLS credentials whose configuration requires and verifies a client certificate against a fresh pool holding only the configured authority, with TLS >= 1.2 and no verification overrides; all five services are registered and served on that server and handlers have no other caller; the identity used for permissions is the subject name of the first verified peer certificate, set in one place only. See DESIGN.md §5 C19.",
 		Trusted:     append([]string{"crypto/tls: with RequireAndVerifyClientCert the handshake fails without a chain to ClientCAs; PeerCertificates[0] is the verified leaf", "grpc-go applies the server credentials to every connection"}, commonTrusted...),
